@@ -420,13 +420,16 @@ struct C14 : Scenario {
 				}
 				if (i == p.reads.size()) break;
 				size_t k = p.reads[i];
-				buf.assign(k + 1, 0xEE);
-				size_t n = lha_decoder_read(d, buf.data(), k);
+				// the caller's buffer starts at an odd address every other time (a caller decoding into out + pos)
+				buf.assign(k + 2, 0xEE);
+				uint8_t *dst = buf.data() + (i & 1);
+				size_t n = lha_decoder_read(d, dst, k);
 				++res.ops;
 				trace_u64(k);
 				trace_u64(n);
 				if (n > k) { res.fail("C14.read_exceeds_request", "read_exceeds_request", strf("read(%zu) returned %zu", k, n)); break; }
-				if (buf[k] != 0xEE) { res.fail("C14.read_overrun", "read_overrun", strf("read(%zu) wrote past the buffer", k)); break; }
+				if (dst[k] != 0xEE) { res.fail("C14.read_overrun", "read_overrun", strf("read(%zu) wrote past the buffer", k)); break; }
+				if (i & 1) buf.erase(buf.begin());
 				if (ended && n != 0) res.fail("C14.resumes_after_end", "resumes_after_end", strf("read %zu returned %zu bytes after an earlier short read", i, n));
 				if (n < k) ended = true;
 				got.insert(got.end(), buf.begin(), buf.begin() + n);
